@@ -156,6 +156,7 @@ def run(chk):
     # ------------------------------------------------------------------ R12 which variable an item access designates (shared clause)
     from . import shared as _shl
     _shl.pdo_lookup(chk, "R12")
+    _shl.pdo_collection_lookup(chk, "R12")
     # ------------------------------------------------------------------ R11 instances are independent (shared clause)
     from . import shared as _shared
     _shared.isolation(chk, "R11", rels=['canopen/pdo/base.py', 'canopen/pdo/__init__.py', 'canopen/network.py'])
